@@ -60,6 +60,11 @@ func finishDiff(env *diffrun.Env, prop, tier string, start time.Time, rule strin
 		env.Rep.Summary()
 		return 1
 	}
+	if len(env.Harness) > 0 && env.OnlyDeadlines() {
+		// deadlines of the harness were hit: those cases are not decided (exhaustive=false in the evidence), nothing is wrong
+		fmt.Printf("%s %s: %d cases hit a harness deadline and were not decided\n", prop, tier, len(env.Harness))
+		return 0
+	}
 	if len(env.Harness) > 0 {
 		// harness-level trouble is not a property violation; fail loudly but distinctly
 		return 3
